@@ -13,6 +13,8 @@ oracle/search : on the implementation alone: re-imported content == original con
                 BEFORE the export; document, to_dict keys and identifier must equal those of an untouched twin built from the same
                 arguments, and the re-imported isotherm must have the content (metadata keys!) of the used one
 """
+import contextlib
+import copy
 import json
 import os
 import random
@@ -21,6 +23,7 @@ import numpy as np
 
 import vlib
 from props import codec_common as cc
+from props import codec_hist as ch
 
 MANIFEST = dict(
     text="Machine-checked (Coq 8.16, axiom-free) round-trip theorem for the pyGAPS JSON codec on a hand-written model of to_dict / "
@@ -37,10 +40,16 @@ MANIFEST = dict(
          "on the isotherm object, with theorems that the model's attribute census is closed under all methods, that every read-only query binds "
          "only names to_dict discards (and never writes the metadata dict), and that to_dict is independent of the values of discarded names - so "
          "a query before an export cannot change the document; per run, histories of discovered public queries are performed before the export "
-         "and the document / to_dict keys / identifier are compared with an untouched twin, the re-imported metadata keys with the original's.",
+         "and the document / to_dict keys / identifier are compared with an untouched twin, the re-imported metadata keys with the original's. "
+         "Round 4: the translator reads the test of the constructor's unit-default loop (default only when the keyword is ABSENT - an explicit None "
+         "label is kept) and the merge rule of the material setter (document values win over a registered namesake) and aborts on any other shape; "
+         "per run, multi-step cases: 1-3 PERMANENT conversions (every target representation incl. relative pressure, fraction / percent loading, "
+         "other material bases, degC) before the export, labels compared one by one; a material / adsorbate registered under the isotherm's name "
+         "with other property values while the document is imported; in-place edits of every mutable object the imported copy holds followed by "
+         "a second import of the same text, which must equal the first.",
     note="Trusted: Coq kernel; the json library (contract loads(dumps v) = v with tuples turned into lists, up to key order), pandas "
          "DataFrame.from_dict / to_dict(orient='index') for rectangular rows, the adsorbate registry (canonical name, idempotent), the label "
-         "tables (same labels are re-checked), the material registry not holding the material; tools/py2v_tables.py; the abstraction "
+         "tables (same labels are re-checked), a registered material namesake having the document's property keys (extra keys of a namesake are not judged); tools/py2v_tables.py; the abstraction "
          "function of the harness (object state -> model state).",
     technique="Coq proof by induction over metadata/row lists on a model tied to source by generated tables and per-run correspondence in Coq")
 
@@ -71,8 +80,13 @@ def _run_case(spec, k, target, hist_seed=None):
     from pygaps.parsing.json import isotherm_from_json, isotherm_to_json
     r = dict(spec=spec, target=target)
     iso = cc.build(spec)
+    if spec.get('convert'):
+        # permanent conversions BEFORE the export (the stored labels are then what the conversion left, e.g. loading_unit None)
+        r['converted'] = ch.apply_conversions(iso, spec['convert'])
     if hist_seed is not None:
         twin = cc.build(spec)
+        if spec.get('convert'):
+            ch.apply_conversions(twin, spec['convert'])
         r['hist_seed'] = hist_seed
         r['queries'] = cc.run_queries(iso, random.Random(hist_seed))
         tw = {}
@@ -102,9 +116,29 @@ def _run_case(spec, k, target, hist_seed=None):
         r['exp'] = vlib.exn_class(e)
         r['exp_msg'] = str(e)[:200]
         return r
+    # a material / adsorbate registered under the same name with OTHER property values while the document is imported
+    ctx = ch.namesake(r['o0'], random.Random(spec['namesake'])) if spec.get('namesake') else contextlib.nullcontext()
     try:
-        j = isotherm_from_json(path if path else s, pressure_key=pk, loading_key=lk)
-        r['imp'] = 'Ok'
+        with ctx as ns:
+            if ns is not None:
+                r['registered'] = ns.props
+            j = isotherm_from_json(path if path else s, pressure_key=pk, loading_key=lk)
+            r['imp'] = 'Ok'
+            if spec.get('reimport'):
+                # edit the imported copy in place, import the same text again: the second import must be the original
+                snap = copy.deepcopy(cc.observe(j))
+                r['id1'] = j.iso_id
+                r['eq'] = bool(j == iso)
+                try:
+                    r['doc2'] = isotherm_to_json(j)
+                except Exception as e:  # noqa
+                    r['doc2'] = 'raised ' + vlib.exn_class(e)
+                r['edits'] = ch.edit_in_place(j, random.Random(spec['reimport']))
+                j2 = isotherm_from_json(path if path else s, pressure_key=pk, loading_key=lk)
+                r['o2'] = cc.observe(j2)
+                r['o1'] = snap
+                r['reimport_diff'] = content_diff(snap, r['o2'])
+                return r
     except Exception as e:  # noqa
         r['imp'] = vlib.exn_class(e)
         r['imp_msg'] = str(e)[:200]
@@ -276,6 +310,39 @@ def gen_specs(tier, seed):
     return specs
 
 
+def gen_multistep_specs(tier, seed):
+    """multi-step scenarios around one export: permanent conversions before it (every target representation), a registered
+    namesake of the material / adsorbate with other property values during the import, an in-place edit of the imported copy
+    followed by a second import of the same text"""
+    rnd = random.Random(seed * 6007 + 29)
+    n = 900 if tier == 'thorough' else 120
+    out = []
+    for k in range(n):
+        kind = ('convert', 'namesake', 'reimport', 'convert')[k % 4]
+        s = cc.gen_spec(rnd, 'json', cls='point' if kind == 'convert' and k % 8 else rnd.choice(['point', 'model', 'base']))
+        if kind == 'convert':
+            if s['cls'] == 'point':
+                s['adsorbate'] = rnd.choice(['N2', 'nitrogen', 'CO2', 'water'])      # conversions need adsorbate properties
+                s['mprops'].setdefault('density', 2.1)
+                s['mprops'].setdefault('molar_mass', 60.08)
+                if rnd.random() < 0.6:
+                    s['data']['cols'] = {}
+                    s['data']['branch'] = rnd.choice(['guess', 'ads'])      # (desorption marks: known finding C06-F1 hides the identifier)
+            s['convert'] = ch.gen_conversions(rnd, s)
+        elif kind == 'namesake':
+            if rnd.random() < 0.8 and not s['mprops']:
+                s['mprops'] = ch.typed_mprops(rnd)
+            s['namesake'] = 'c06-ns/%d/%d' % (seed, k)
+        else:
+            if rnd.random() < 0.7:
+                s['meta'][rnd.choice(['cycles', 'tags', 'history'])] = rnd.choice([[1, 2, 3], ['a', 'b'], [0.5], {'a': [1, 2], 'b': {'c': 1}}, [[1, 2], [3]]])
+            if rnd.random() < 0.4:
+                s['mprops']['composition'] = rnd.choice([['Cu', 'BTC'], {'Cu': 3, 'BTC': [2]}])
+            s['reimport'] = 'c06-re/%d/%d' % (seed, k)
+        out.append(s)
+    return out
+
+
 def gen_history_specs(tier, seed):
     """isotherms that are QUERIED before they are exported: (spec, seed of the query history)"""
     rnd = random.Random(seed * 7919 + 11)
@@ -312,6 +379,13 @@ def explore(rep, tier, seed):
         try:
             results.append(run_case(spec, len(specs) + k, 'file' if k % 4 == 3 else 'string', hist_seed=hs))
             n_hist += 1
+        except Exception:  # noqa
+            skipped += 1
+    n_multi = 0
+    for k, spec in enumerate(gen_multistep_specs(tier, seed)):
+        try:
+            results.append(run_case(spec, 100000 + k, 'file' if k % 3 == 2 else 'string'))
+            n_multi += 1
         except Exception:  # noqa
             skipped += 1
     # ---------------- correspondence (model executed in Coq)
@@ -387,8 +461,27 @@ def explore(rep, tier, seed):
             continue
         hist[key + '/' + r['target']] = hist.get(key + '/' + r['target'], 0) + 1
         d = content_diff(o0, r['o1'])
+        for tagk in ('convert', 'namesake', 'reimport'):
+            if spec.get(tagk):
+                hist[key + '/+' + tagk] = hist.get(key + '/+' + tagk, 0) + 1
         if d:
-            rep.failure(classify(r, 'content', d), 're-imported isotherm differs from the original in %s' % (d,), replay_dict(r, 'content', d))
+            how = ('after-permanent-conversion:' if spec.get('convert') and d[0] == 'units' else '') + ('registered-namesake:' if spec.get('namesake') and d[0].startswith('material') else '')
+            tag = classify(r, 'content', d)
+            if how and tag.startswith('C06:unclassified:content:'):
+                tag = 'C06:unclassified:content:' + how + d[0]
+            what = 're-imported isotherm differs from the original in %s' % (d,)
+            if d[0] == 'units':
+                what += '; labels one by one (exported -> re-imported): %s' % ', '.join('%s: %r -> %r' % (n, a, b) for n, a, b in zip(cc.UNIT_ORDER, o0['units'], r['o1']['units']) if a != b)
+            if spec.get('convert'):
+                what += '; permanent conversions before the export: %s' % (r.get('converted'),)
+            if spec.get('namesake'):
+                what += '; while importing, pygaps.MATERIAL_LIST held a material of the same name with properties %s' % (r.get('registered'),)
+            rep.failure(tag, what, replay_dict(r, 'content', d))
+            continue
+        if spec.get('reimport') and r.get('reimport_diff'):
+            rep.failure('C06:unclassified:second-import-after-in-place-edit:%s' % r['reimport_diff'][0],
+                        'the imported isotherm was edited in place (%s); importing the SAME document again gives an isotherm that differs from the first import in %s' % (
+                            r.get('edits'), r['reimport_diff']), replay_dict(r, 'reimport', r['reimport_diff']))
             continue
         if spec['cls'] == 'model' and not r.get('pred_same', True):
             rep.failure(classify(r, 'predictions'), 're-imported model predicts other loadings', replay_dict(r, 'predictions'))
@@ -405,11 +498,14 @@ def explore(rep, tier, seed):
                        'branch {guess, ads, des, int list, bool list} x extra float/int/bool/text columns x custom key names x metadata from a '
                        'structured generator (unicode, text spelled like numbers/booleans/None/lists, ints incl. negative and > 2^53, floats incl. '
                        '1e-320 and 1e308, bools, None, lists, nested dicts) x string/file target, plus directed cases. non-trivial = distinct '
-                       '(class, typed metadata shape, number of rows, unit labels, column dtypes) whose round trip preserved the content')
+                       '(class, typed metadata shape, number of rows, unit labels, column dtypes) whose round trip preserved the content; multi-step cases: '
+                       '{1-3 permanent conversions before the export | registered namesake of the material (same keys, other values) and of an unknown adsorbate '
+                       'during the import | in-place edit of the imported copy then second import of the same text}')
     rep.cov['query_histories'] = {'cases': n_hist, 'queries_performed': dict(sorted(n_q.items())),
                                   'rule': 'every public method / property found on the class except from_* / guess / convert* / plot / print_info / '
                                           'to_xl / to_db, 1-6 per history with drawn optional arguments (branch, units of the returned value, '
                                           'limits, interpolation options, scalar / list arguments), then export; compared with an untouched twin'}
+    rep.cov['multi_step_cases'] = n_multi
     rep.cov['input_distribution'] = dict(sorted(hist.items()), skipped_by_constructor=skipped)
     rep.cov['correspondence'] = {'cases': len(results), 'disagreements': n_dis,
                                  'what': 'model export vs implementation document; model import vs state of the re-imported object (typed, compared inside Coq)'}
@@ -419,7 +515,8 @@ def explore(rep, tier, seed):
                                 'oracle: adsorbate registry (canonical names), label tables of C01/C02',
                                 'abstraction function tools/props/codec_common.py observe/coq_iso']
     rep.assumptions += ['metadata keys are not reserved constructor parameter names (property text)',
-                        'materials are not in the global MATERIAL_LIST registry', 'dict key order is not content (Python ==)']
+                        'a material registered under the same name has the property keys of the document (extra keys of the registered one are not judged)',
+                        'dict key order is not content (Python ==)']
 
 
 def replay(d):
